@@ -58,9 +58,28 @@ Definition tail_ok (tail : history) (opn : list N) : bool :=
   | None => false
   end.
 
-(** the model's log text for [es] = the observed file text, up to column alignment *)
+(** the model's log text for [es] = the observed file text, up to column alignment (information only) *)
 Definition fcase_fmt (es : list Jepsen.event) (text : list N) : bool :=
   list_eqb N.eqb (squeeze (format_log es)) (squeeze text).
+
+(** what the parser makes of each line: the observable the property talks about.  The model's text
+    and the observed text must read the same line by line (a harmless change of the layout, or of
+    a keyword in a line the parser ignores anyway, is not a disagreement). *)
+Definition line_kind_eqb (a b : line_kind) : bool :=
+  match a, b with
+  | LInvokeRead p, LInvokeRead q => p =? q
+  | LInvokeWrite p v, LInvokeWrite q w => (p =? q) && (v =? w)
+  | LInvokeCas p a1 b1, LInvokeCas q a2 b2 => (p =? q) && (a1 =? a2) && (b1 =? b2)
+  | LReturnRead p v, LReturnRead q w => (p =? q) && opt_eqb N.eqb v w
+  | LReturnWrite p, LReturnWrite q => p =? q
+  | LReturnCas p x, LReturnCas q y => (p =? q) && Bool.eqb x y
+  | LTimeoutRead p, LTimeoutRead q => p =? q
+  | LNoMatch, LNoMatch => true
+  | _, _ => false
+  end.
+
+Definition fcase_lines (es : list Jepsen.event) (text : list N) : bool :=
+  list_eqb line_kind_eqb (map parse_line (read_lines (format_log es))) (map parse_line (read_lines text)).
 
 (** byte-exact variant (reported as information only) *)
 Definition fcase_exact (es : list Jepsen.event) (text : list N) : bool :=
